@@ -148,7 +148,8 @@ Definition side_ok (g : ghost) (w : world) (e : nat) (en : StateModel.entry) (sd
   | None =>
     (* a side without id is empty and carries no change *)
     negb (StateModel.tchg (StateModel.s_chg x)) && is_none (StateModel.s_path x) && is_none (StateModel.s_hash x) &&
-    is_none (StateModel.s_spath x) && is_none (StateModel.s_shash x)
+    is_none (StateModel.s_spath x) && is_none (StateModel.s_shash x) &&
+    (disc || ex_is (StateModel.s_ex x) StateModel.ExUnknown)
   | Some o =>
     match oidk (Some o) with
     | None => false
